@@ -557,7 +557,7 @@ def coll_oracle(interp, env, f, args, t, bb, path):
             return some(lo)
         if nm in ("len", "count"):
             return max(0, hi - lo)
-        if nm in ("map", "filter", "collect", "rev", "skip", "take", "zip", "enumerate", "for_each", "all", "any", "cloned", "step_by", "chain", "sum", "min", "max", "flat_map", "filter_map", "fold", "position", "find", "count", "last") and hi - lo <= 64:
+        if nm in ("map", "filter", "collect", "rev", "skip", "take", "zip", "enumerate", "for_each", "all", "any", "cloned", "step_by", "chain", "sum", "min", "max", "flat_map", "filter_map", "fold", "try_fold", "reduce", "position", "find", "count", "last", "nth", "min_by_key", "max_by_key", "product") and hi - lo <= 64:
             v0 = It(list(range(lo, hi)))
     if dk in ("core::iter::sources::repeat::repeat", "core::iter::repeat"):
         return Agg("repeat", None, None, [args[0]])
@@ -678,6 +678,39 @@ def coll_oracle(interp, env, f, args, t, bb, path):
                     return TOP
                 out.extend(sub)
             return It(out)
+        if nm == "fold" and len(args) == 3:
+            acc = args[1]
+            for x in it.items:
+                acc = _call1(interp, args[2], [acc, x])
+                if acc is None:
+                    return TOP
+            return acc
+        if nm == "reduce" and len(args) == 2:
+            if not it.items:
+                return NONE
+            acc = it.items[0]
+            for x in it.items[1:]:
+                acc = _call1(interp, args[1], [acc, x])
+                if acc is None:
+                    return TOP
+            return some(acc)
+        if nm == "try_fold" and len(args) == 3:
+            acc = args[1]
+            for x in it.items:
+                r = _call1(interp, args[2], [acc, x])
+                if not (isinstance(r, Agg) and r.variant in ("Ok", "Some", "Err", "None", "Continue", "Break")):
+                    return TOP
+                if r.variant in ("Err", "None", "Break"):
+                    return r
+                acc = r.fields[0]
+            import re as _re2
+            ret = f.get("ret") or ""
+            if ret.startswith("core::result::Result"):
+                from absint import ok as _ok2
+                return _ok2(acc)
+            if ret.startswith("core::option::Option"):
+                return some(acc)
+            return TOP
         if nm == "filter_map" and len(args) == 2:
             out = []
             for x in it.items:
